@@ -27,8 +27,8 @@ import (
 
 type dim struct{ l, t, k, p int } // doubled exponents (p: pixels of a raster image)
 
-func (d dim) add(o dim) dim  { return dim{d.l + o.l, d.t + o.t, d.k + o.k, d.p + o.p} }
-func (d dim) sub(o dim) dim  { return dim{d.l - o.l, d.t - o.t, d.k - o.k, d.p - o.p} }
+func (d dim) add(o dim) dim   { return dim{d.l + o.l, d.t + o.t, d.k + o.k, d.p + o.p} }
+func (d dim) sub(o dim) dim   { return dim{d.l - o.l, d.t - o.t, d.k - o.k, d.p - o.p} }
 func (d dim) scale(n int) dim { return dim{d.l * n, d.t * n, d.k * n, d.p * n} }
 func (d dim) half() (dim, bool) {
 	if d.l%2 != 0 || d.t%2 != 0 || d.k%2 != 0 || d.p%2 != 0 {
@@ -84,10 +84,10 @@ const (
 )
 
 type uval struct {
-	st    int
-	d     dim
-	kind  int
-	nodim bool // kind is known, the dimension is not (e.g. Ray.Direction: any vector)
+	st     int
+	d      dim
+	kind   int
+	nodim  bool // kind is known, the dimension is not (e.g. Ray.Direction: any vector)
 	nokind bool // the kind was inferred from one operand only (unknown ± point): not used by ORIGIN
 }
 
